@@ -14,6 +14,8 @@ pub mod syncflag;
 pub mod condvar;
 pub mod barrier;
 pub mod waitgroup;
+pub mod time_dur;
+pub mod timeout_list;
 
 /// a det-mode scenario ready to run
 pub struct Built {
@@ -44,18 +46,21 @@ pub fn build_det(family: &str, rng: &mut Rng, tier: u32) -> Option<Built> {
         "condvar" => Some(condvar::build(rng, tier)),
         "barrier" => Some(barrier::build(rng, tier)),
         "waitgroup" => Some(waitgroup::build(rng, tier)),
+        "time_dur" => Some(time_dur::build(rng, tier)),
+        "timeout_list" => Some(timeout_list::build(rng, tier)),
         _ => None,
     }
 }
 
 pub fn det_families() -> Vec<&'static str> {
-    vec!["ch_mpsc", "mutex", "mq_tl", "rwlock", "rwlock_reg", "sem", "syncflag", "mq_mpsc", "mq_spsc", "mq_spmc", "condvar", "barrier", "waitgroup"]
+    vec!["ch_mpsc", "mutex", "mq_tl", "rwlock", "rwlock_reg", "sem", "syncflag", "mq_mpsc", "mq_spsc", "mq_spmc", "condvar", "barrier", "waitgroup", "time_dur", "timeout_list"]
 }
 
 pub mod live_park;
 pub mod live_join;
 pub mod live_life;
 pub mod live_cancel;
+pub mod live_io;
 
 /// a live-mode scenario (real runtime, real time)
 pub struct LiveBuilt {
@@ -75,6 +80,11 @@ pub fn build_live(family: &str, rng: &mut Rng, tier: u32) -> Option<LiveBuilt> {
         "cancel" => Some(live_cancel::build(rng, tier)),
         "cancel_mutex" => Some(live_cancel::build_mutex(rng, tier)),
         "cancel_cvlock" => Some(live_cancel::build_cvlock(rng, tier)),
+        "io_stream" => Some(live_io::build_stream(rng, tier)),
+        "io_timeout" => Some(live_io::build_timeout(rng, tier, false)),
+        "io_timeout_race" => Some(live_io::build_timeout(rng, tier, true)),
+        "io_cancel" => Some(live_io::build_cancel(rng, tier)),
+        "io_cancel_shared" => Some(live_io::build_cancel_shared(rng, tier)),
         _ => None,
     }
 }
